@@ -189,6 +189,9 @@ func (r *Runner) builtin(ctx context.Context, pos syntax.Pos, name string, args 
 		case 0:
 		case 1:
 			if n2, err := strconv.Atoi(args[0]); err == nil {
+				if n2 < 0 {
+					return failf(1, "shift: %d: shift count out of range\n", n2)
+				}
 				n = n2
 				break
 			}
